@@ -181,6 +181,14 @@ def run(run):
         a, b = oracle(run, text, case)
         for eng, r in (("numpy", a), ("normal", b)):
             dd.compare(run, "fixed/" + eng, text, {"engine": eng}, r, True, case=dict(case, engine=eng))
+    # empty inner ~A (fixed finding 965fe63): r = 0 is outside PlainData -> context correspondence, oracle still demands equal engines
+    case = {"text": dd.EMPTY_INNER_A, "fixed": "empty-inner-A"}
+    run.case(case, nontrivial=True, tags=["fixed-input"])
+    a, b = oracle(run, dd.EMPTY_INNER_A, case)
+    for eng, r in (("numpy", a), ("normal", b)):
+        dd.compare(run, "fixed-context/" + eng, dd.EMPTY_INNER_A, {"engine": eng}, r, False, case=dict(case, engine=eng))
+        if r["res"][0] != "ok" or [c[2] for c in r["res"][1]] != [[]]:
+            run.fail("empty-section", dict(case, engine=eng), r["res"])
     # (a) PlainData: sweep + random
     for doc in sweep(run.rng):
         check_plain(run, doc, "sweep")
